@@ -1,8 +1,18 @@
 #!/usr/bin/env python3
-"""Writes MANIFEST.json from tools/claims.json (one entry per claimed property) so the file stays valid."""
+"""Writes MANIFEST.json from claims/<Cxx>.json (one file per claimed property) and known_findings.json from findings/<Cxx>.json."""
 import json, os, subprocess
 V = os.path.dirname(os.path.dirname(os.path.abspath(__file__)))
-claims = json.load(open(os.path.join(V, "tools", "claims.json")))
+claims = {}
+for f in sorted(os.listdir(os.path.join(V, "claims"))):
+    if f.endswith(".json"):
+        claims[f[:-5]] = json.load(open(os.path.join(V, "claims", f)))
+# known_findings.json = the committed merge of findings/<Cxx>.json (never written by a check at run time)
+merged = []
+for f in sorted(os.listdir(os.path.join(V, "findings"))):
+    if f.endswith(".json"):
+        merged += json.load(open(os.path.join(V, "findings", f))).get("findings", [])
+json.dump({"_comment": "Committed; merged from findings/<Cxx>.json by tools/gen_manifest.py; never written at run time. status=known: a genuine defect recorded rather than repaired (matched by property + regex `sig` against the failure signature; the check prints KNOWN-FINDING and does not fail for it). status=fixed: repaired by a fix: commit in /repo; suppresses nothing - its replay is in the harness corpus and runs first on every check.",
+           "findings": merged}, open(os.path.join(V, "known_findings.json"), "w"), indent=1)
 props = [json.loads(l) for l in open(os.path.join(V, "properties.jsonl"))]
 checks, na = [], []
 for p in props:
